@@ -37,6 +37,22 @@ def sec_findings():
         out.append(f"| {f['property']} | {f['id']} | {st} | {what} |")
     return "\n".join(out)
 
+def sec_benign():
+    out = ["| change | property | kind | what it changes | quick check |", "|---|---|---|---|---|"]
+    for d in sorted(glob.glob(f'{R}/seeded/benign/*/meta.json')):
+        m = json.load(open(d))
+        name = os.path.basename(os.path.dirname(d))
+        q = m.get('quick_check_result', {})
+        res = "silent (exit 0)" if q.get('exit') == 0 and not q.get('violations') else f"ALARM (exit {q.get('exit')}) - see 12.9 notes"
+        if m.get('triage'):
+            res += "; " + m['triage']
+        summ = str(m.get('summary', '')).replace('|', '\\|').replace('\n', ' ')
+        if len(summ) > 260:
+            summ = summ[:257] + '...'
+        out.append(f"| {name} | {m.get('property', name[:3])} | {m.get('kind', '')} | {summ} | {res} |")
+    return "\n".join(out)
+
+
 def sec_seeds():
     out = ["| seeded change | property | what it needs to manifest | result | detected by |", "|---|---|---|---|---|"]
     for d in sorted(glob.glob(f'{R}/seeded/C*')):
@@ -61,7 +77,7 @@ def sec_growth():
         out.append("")
     return "\n".join(out)
 
-gen = {'checks': sec_checks, 'findings': sec_findings, 'seeds': sec_seeds, 'growth': sec_growth}
+gen = {'checks': sec_checks, 'findings': sec_findings, 'seeds': sec_seeds, 'growth': sec_growth, 'benign': sec_benign}
 s = open(f'{R}/DESIGN.md').read()
 for name, fn in gen.items():
     pat = re.compile(rf'(<!-- AUTO:{name} -->\n).*?(<!-- /AUTO:{name} -->)', re.S)
